@@ -279,6 +279,9 @@ func (x *Exec) derefLV(ptr Value, elemT types.Type) *LValue {
 	if ptr.LV != nil {
 		return ptr.LV
 	}
+	if mentionsIptr(ptr.T) {
+		unsup("dereference of a pointer that may be an interior pointer merged with another value")
+	}
 	if _, ok := elemT.Underlying().(*types.Array); ok && !isUUID(elemT) {
 		at := elemT.Underlying().(*types.Array)
 		key, sort := elemHeapKey(at.Elem())
